@@ -44,16 +44,20 @@ RecipeExisting(rc, v) ==
     [] OTHER -> 0
 
 (* Reference invalidity: superseded bind generations and what depends on them *)
-RECURSIVE DeadRef(_, _)
-DeadRef(s, n) ==
+\* least fixed point: a node already on the current path contributes FALSE
+RECURSIVE DeadRefP(_, _, _)
+DeadRefP(s, n, seen) ==
+  IF n \in seen THEN FALSE ELSE
   LET d == s.def[n]
-      b == s.scope[n] IN
-  \/ (b # 0 /\ (s.born[n] < s.gen[b] \/ DeadRef(s, s.def[b].main)))
+      b == s.scope[n]
+      sn == seen \cup {n} IN
+  \/ (b # 0 /\ (s.born[n] < s.gen[b] \/ DeadRefP(s, s.def[b].main, sn)))
   \/ CASE d.k \in {"var", "const"} -> FALSE
        [] d.k \in {"map", "map2", "fold", "mapref", "mwo", "lhs"} ->
-            \E i \in 1..Len(d.ins) : DeadRef(s, d.ins[i])
-       [] d.k = "main" -> DeadRef(s, d.lc) \/ (s.rhs[d.lc] # 0 /\ DeadRef(s, s.rhs[d.lc]))
+            \E i \in 1..Len(d.ins) : DeadRefP(s, d.ins[i], sn)
+       [] d.k = "main" -> DeadRefP(s, d.lc, sn) \/ (s.rhs[d.lc] # 0 /\ DeadRefP(s, s.rhs[d.lc], sn))
        [] OTHER -> FALSE
+DeadRef(s, n) == DeadRefP(s, n, {})
 
 (* Cutoffs that only suppress equal values, i.e. where C01's proviso holds   *)
 ExactCutoff(c) == c.c \in {"eq", "never", "dep", "beq"}
